@@ -31,7 +31,7 @@ type c10Case struct {
 	Errs     []map[string]any `json:"errors,omitempty"`
 	WithData bool             `json:"with_data"`
 	Second   bool             `json:"second_failing_element"`
-	MaxBatch int              `json:"max_batch,omitempty"` // downstream batches split into chunks of this size (0: default 3000)
+	MaxBatch int              `json:"max_batch,omitempty"`           // downstream batches split into chunks of this size (0: default 3000)
 	LeadName string           `json:"lead_operation_name,omitempty"` // mode invalid: the mutant is the second entry of an HTTP batch whose first entry is a gateway-only operation of this name
 }
 
